@@ -35,7 +35,7 @@ def run(ctx):
             continue
         n += 1
         checks = [c for g in group for c in g.calls if c.name.endswith("RecordHeader::is_deleted") or "is_visible" in c.name.rsplit("::", 1)[-1]
-                  or c.name.endswith("check_row_visibility")]
+                  or c.name.endswith("check_row_visibility") or c.name.endswith("mvcc_helpers::is_tombstone")]
         tail = f.id.rsplit("::", 1)[-1]
         if not checks and tail in TOLERATED:
             ctx.ob("T1.TOMBSTONE-DISCIPLINE", tail, True, "tolerated (%s)" % TOLERATED[tail], f.loc())
